@@ -485,7 +485,7 @@ type rawClient struct {
 }
 
 func newRawClient(c *memConn) *rawClient {
-	c.SetReadDeadline(time.Now().Add(20 * time.Second))
+	c.SetReadDeadline(time.Now().Add(120 * time.Second))
 	return &rawClient{c: c, br: bufio.NewReader(c)}
 }
 
